@@ -3,7 +3,7 @@
    compute_ray and k__build_rays are the definitions REGENERATED from
    /repo/mujoco_warp/_src/render_util.py (Gen/T_render_util.v); render_pixel is the hand model of
    render.py's per-pixel code (_render_megakernel + cast_ray) of Model/Ray.v, tied to the real render
-   kernel by the per-pixel correspondence run of bin/props/C35.py.  Over R.  Not covered: shading,
+   kernel by the per-pixel correspondence run of bin/props/C35.py.  Over R.  Orthographic pixel origins as repaired in /repo 2e971a4.  Not covered: shading,
    textures, flex, splats, mesh/hfield geoms (Warp mesh query builtin). *)
 From Coq Require Import ZArith Reals List Bool String.
 From VF Require Import Base.Scalar Base.ScalarR Base.Vec Base.Loop Base.Kernel Model.Ray Gen.T_render_util Proof.Ray.
@@ -46,25 +46,48 @@ Theorem C35_pixel_ray_orthographic : forall (fovy : R) (sens intr : list R) (W H
 Proof. exact pixel_ray_orthographic. Qed.
 Print Assumptions C35_pixel_ray_orthographic.
 
-(* ... and since the render kernel starts every ray at the camera centre (render_ray_cam), the ray of an
-   orthographic pixel does NOT pass through that pixel's centre on the image plane (2x1 image witness):
-   "unit ray through the pixel centre" is refuted for orthographic cameras on the faithful model;
-   all pixels render identically (reproduced on the real renderer by bin/props/C35.py) *)
-Theorem C35_pixel_ray_orthographic_refuted :
-  exists (W Hh px py : Z) (hw hh znear : R),
-    0 < hw /\ 0 < hh /\ 0 < znear /\ (0 <= px < W)%Z /\ (0 <= py < Hh)%Z /\
-    ~ on_ray (render_ray_cam (compute_ray 1 45 [0; 0] [0; 0; 0; 0] W Hh px py znear))
-             (plane_point (- hw) hw hh (- hh) znear W Hh px py).
-Proof. exact pixel_ray_orthographic_refuted. Qed.
-Print Assumptions C35_pixel_ray_orthographic_refuted.
+(* ... and the render kernel (after /repo 2e971a4; render_ray_cam = hand model of its origin offset, tied by
+   the per-pixel correspondence) starts the ray of pixel (px,py), local index px + py W, at the pixel
+   centre of the image window of height fovy: origin (hw (2u-1), hh (1-2v), 0) with hh = fovy/2,
+   hw = hh W/H; the ray is parallel to the optical axis and passes through that pixel's centre of the
+   window at every depth znear.  (Replaces C35_pixel_ray_orthographic_refuted / C35_orthographic_image_constant,
+   which described the kernel before the repair.) *)
+Theorem C35_pixel_ray_orthographic_origin :
+  forall (fovy : R) (sens intr : list R) (W Hh px py : Z) (znear : R),
+  (0 < W)%Z -> (0 < Hh)%Z -> (0 <= px < W)%Z -> (0 <= py)%Z ->
+  let hh := fovy / 2 in let hw := hh * IZR W / IZR Hh in
+  let r := render_ray_cam 1 fovy W Hh (px + py * W) (compute_ray 1 fovy sens intr W Hh px py znear) in
+  snd r = [0; 0; -1] /\
+  fst r = [hw * (2 * pu W px - 1); hh * (1 - 2 * pv Hh py); 0] /\
+  on_ray r (plane_point (- hw) hw hh (- hh) znear W Hh px py).
+Proof. exact pixel_ray_orthographic_origin. Qed.
+Print Assumptions C35_pixel_ray_orthographic_origin.
 
-Theorem C35_orthographic_image_constant :
-  forall (cull : bool) (cam_xpos cam_xmat : list R) (gd : list R -> list R -> Z -> R * list R) (order : list Z)
-         (fovy : R) (sens intr : list R) (W Hh px py px' py' : Z) (znear : R),
-  render_pixel cull cam_xpos cam_xmat (compute_ray 1 fovy sens intr W Hh px py znear) gd order
-  = render_pixel cull cam_xpos cam_xmat (compute_ray 1 fovy sens intr W Hh px' py' znear) gd order.
-Proof. exact ortho_image_constant. Qed.
-Print Assumptions C35_orthographic_image_constant.
+(* distinct pixels of an orthographic camera get distinct parallel rays *)
+Theorem C35_orthographic_rays_distinct :
+  forall (fovy : R) (sens intr : list R) (W Hh px py px' py' : Z) (znear : R),
+  (0 < W)%Z -> (0 < Hh)%Z -> (0 <= px < W)%Z -> (0 <= py)%Z -> (0 <= px' < W)%Z -> (0 <= py')%Z -> fovy <> 0 ->
+  (px, py) <> (px', py') ->
+  let r := render_ray_cam 1 fovy W Hh (px + py * W) (compute_ray 1 fovy sens intr W Hh px py znear) in
+  let r' := render_ray_cam 1 fovy W Hh (px' + py' * W) (compute_ray 1 fovy sens intr W Hh px' py' znear) in
+  snd r = snd r' /\ fst r <> fst r'.
+Proof. exact ortho_rays_distinct. Qed.
+Print Assumptions C35_orthographic_rays_distinct.
+
+(* world-frame origin = camera pose applied to the camera-frame origin; perspective rays start at cam_xpos *)
+Theorem C35_render_origin_world :
+  forall (proj : Z) (fovy : R) (W Hh local : Z) (cx cy cz m00 m01 m02 m10 m11 m12 m20 m21 m22 : R),
+  let cam_xmat := m9 m00 m01 m02 m10 m11 m12 m20 m21 m22 in
+  render_origin proj fovy W Hh local [cx; cy; cz] cam_xmat
+  = @vadd R ScalarR [cx; cy; cz] (@mat_vec R ScalarR 3 3 cam_xmat (render_origin_cam proj fovy W Hh local)).
+Proof. exact render_origin_world. Qed.
+Print Assumptions C35_render_origin_world.
+
+Theorem C35_render_origin_perspective :
+  forall (proj : Z) (fovy : R) (W Hh local : Z) (cam_xpos cam_xmat : list R),
+  proj <> 1%Z -> render_origin proj fovy W Hh local cam_xpos cam_xmat = cam_xpos.
+Proof. exact render_origin_perspective. Qed.
+Print Assumptions C35_render_origin_perspective.
 
 (* _build_rays stores compute_ray of pixel (xid,yid) at ray[offset + xid + yid W]; the render kernel
    recovers (px,py) from the local index with C remainder / quotient *)
@@ -80,18 +103,19 @@ Theorem C35_pixel_index : forall (W px py : Z), (0 <= px < W)%Z -> (0 <= py)%Z -
 Proof. exact build_rays_index. Qed.
 Print Assumptions C35_pixel_index.
 
-(* depth / segmentation = nearest_fold instance.  For the ray dir_world = cam_xmat dir_local from
-   cam_xpos, candidates cand g = (distance, normal) of geom g after the optional back-face cull, and ANY
+(* depth / segmentation = nearest_fold instance.  For the ray dir_world = cam_xmat dir_local from the
+   origin of the pixel (cam_xpos, plus the pixel offset for an orthographic camera), candidates cand g = (distance, normal) of geom g after the optional back-face cull, and ANY
    visiting order of the scene-BVH geoms (ids >= 0): either no candidate is eligible (0 <= d < 1e10) and
    the pixel gets depth 0 and segmentation (-1,-1), or the pixel gets segmentation (g, mjOBJ_GEOM = 5) of
    an eligible geom of minimal distance and depth = that distance times -dir_local_z (planar depth). *)
 Theorem C35_render_pixel_nearest :
-  forall (cull : bool) (cam_xpos cam_xmat dir_local : list R)
+  forall (cull : bool) (proj : Z) (fovy : R) (W Hh local : Z) (cam_xpos cam_xmat dir_local : list R)
          (gd : list R -> list R -> Z -> R * list R) (order : list Z),
   (forall g, In g order -> (0 <= g)%Z) ->
   let dir_world := @mat_vec R ScalarR 3 3 cam_xmat dir_local in
-  let cand := fun g => cull_hit cull dir_world (gd cam_xpos dir_world g) in
-  let '(depth, seg) := render_pixel cull cam_xpos cam_xmat dir_local gd order in
+  let origin := render_origin proj fovy W Hh local cam_xpos cam_xmat in
+  let cand := fun g => cull_hit cull dir_world (gd origin dir_world g) in
+  let '(depth, seg) := render_pixel cull proj fovy W Hh local cam_xpos cam_xmat dir_local gd order in
   ((forall g, In g order -> ~ elig cand g) /\ depth = 0 /\ seg = ((-1)%Z, (-1)%Z))
   \/
   (exists g, In g order /\ elig cand g /\ seg = (g, 5%Z) /\
